@@ -953,6 +953,12 @@ def _aliases(fn):
     value, site, banned, mutated, loads, last_use = {}, {}, set(), set(), {}, {}
     name_stores = {}   # name -> [(order, loops)]
     text_stores = {}   # text of a stored attribute / subscripted object -> [(order, loops)]
+    star_uses = {}
+    for c_ in ast.walk(fn):
+        if isinstance(c_, ast.Call):
+            for k_ in c_.keywords:
+                if k_.arg is None and isinstance(k_.value, ast.Name):
+                    star_uses[k_.value.id] = star_uses.get(k_.value.id, 0) + 1
     impure_at, loops_at, use_sites, selfcall_at = {}, {}, {}, {}
     for st, order, loops, in_try, body, i in table:
         loops_at[order] = loops
@@ -1084,7 +1090,7 @@ def _aliases(fn):
         fresh = (isinstance(v, (ast.List, ast.Dict, ast.Set)) and not (getattr(v, "elts", None) or getattr(v, "keys", None))) or \
             (isinstance(v, ast.Call) and (v.func.attr if isinstance(v.func, ast.Attribute) else getattr(v.func, "id", "")) in FRESH)
         if _is_pure(v):
-            if fresh and uses > 1:
+            if fresh and uses > 1 and star_uses.get(k, 0) != uses:   # (a dict that is only ever unpacked with ** is not shared: every call gets its own copy of the items)
                 continue
             out[k] = v
             continue
@@ -1206,6 +1212,29 @@ class _Small(ast.NodeTransformer):
     def visit_IfExp(self, n):
         self.generic_visit(n)
         return _lift_attr(n)
+
+    def visit_Call(self, n):
+        self.generic_visit(n)
+        # f(*(a, b)) -> f(a, b)
+        if any(isinstance(a, ast.Starred) and isinstance(a.value, (ast.Tuple, ast.List)) for a in n.args):
+            args = []
+            for a in n.args:
+                if isinstance(a, ast.Starred) and isinstance(a.value, (ast.Tuple, ast.List)):
+                    args.extend(a.value.elts)
+                else:
+                    args.append(a)
+            n.args = args
+        return n
+
+    def visit_Lambda(self, n):
+        self.generic_visit(n)
+        # lambda x: f(x) -> f   (f an attribute / name that does not mention x)
+        a = n.args
+        if len(a.args) == 1 and not (a.defaults or a.kwonlyargs or a.vararg or a.kwarg or a.posonlyargs) and isinstance(n.body, ast.Call) and not n.body.keywords \
+                and len(n.body.args) == 1 and isinstance(n.body.args[0], ast.Name) and n.body.args[0].id == a.args[0].arg and isinstance(n.body.func, (ast.Attribute, ast.Name)) \
+                and not any(isinstance(x, ast.Name) and x.id == a.args[0].arg for x in ast.walk(n.body.func)):
+            return n.body.func
+        return n
 
 
 def _lift_attr(n):
